@@ -30,6 +30,14 @@ CHECKS = {
     'C06': ('exploration', 'seeded search over every relative order and placement of wake-ups (resume calls, completion of awaited '
             'futures of a WorkChain) against pause/play; liveness decided by quiescence of the virtual-time loop after a final '
             'play', '5 C06', 'deterministic simulation: seeded schedule search, bounded-liveness (quiescence) oracle'),
+    'C07': ('exploration', 'seeded search over process and workchain programs x pause/play/kill placements x medium x loader; at every '
+            'state entry, paused point, creation and termination of the simulated run the bundle is sent through the medium, '
+            'loaded, saved again and compared (canonical form), as are the public accessors of original and loaded process',
+            '5 C07', 'deterministic simulation: checkpoint at every crash point, save/load/save differential oracle'),
+    'C08': ('exploration', 'seeded search over programs and outlines x subsets of step boundaries as crash points x media; the '
+            'instance is abandoned at each crash point and continued from the bundle in a fresh loop; executed steps, '
+            'persisted trace, outputs, context and result are compared with the uninterrupted run', '5 C08',
+            'deterministic simulation with crash/restart injection, differential oracle against the uninterrupted run'),
     'C13': ('exploration', 'seeded search over step chains with random arguments x crash points (checkpoint through deepcopy / '
             'pickle / YAML, abandon, restore in a fresh loop); recorded arguments and outcome compared with a reference model of '
             'the step commands', '5 C13', 'deterministic simulation with crash/restart injection, reference-model oracle'),
@@ -46,8 +54,6 @@ NOT_APPLICABLE = [
 ]
 
 PENDING = {
-    'C07': 'check under construction in this session',
-    'C08': 'check under construction in this session',
     'C10': 'check under construction in this session',
     'C14': 'check under construction in this session',
     'C16': 'check under construction in this session',
